@@ -49,6 +49,9 @@ def lists(rng, tier):
 def expr_of(it):
     if it["k"] == "num":
         v, ty = it["v"], it.get("ty", "I")
+        if "c" in it:
+            c = it["c"]
+            return ("-" if c < 0 else "") + "%d.%02d" % (abs(c) // 100, abs(c) % 100) + ("#" if ty == "D" else "")
         if it.get("neg0"):
             return "-ZS!" if ty == "S" else "-ZD#"       # a negative zero (the variables are never assigned): prints as 0
         if ty in ("I", "L"):
@@ -98,7 +101,8 @@ def spec_hist(hist):
     out = []
     for s in hist:
         if "using" in s:
-            out.append({"dev": s["dev"], "using": s["using"], "vals": [{"k": v["k"], "v": v["v"]} for v in s["vals"]], "semi": s["semi"]})
+            out.append({"dev": s["dev"], "using": s["using"],
+                        "vals": [dict({"k": v["k"], "v": v["v"]}, **({"c": v["c"]} if "c" in v else {})) for v in s["vals"]], "semi": s["semi"]})
         else:
             out.append({"dev": s["dev"], "items": [({"k": "sep", "s": i["s"]} if i["k"] == "sep" else {"k": i["k"], "v": i["v"]}) for i in s["items"]]})
     return out
@@ -130,7 +134,8 @@ def gen_histories(tier, rng):
         for d in DEVS:
             hs.append([{"dev": d, "items": l}])
     pend = [[ITEMS[10], SEMI], [ITEMS[0], COMMA], [ITEMS[12], COMMA], [SEMI], [ITEMS[16], SEMI]]
-    sample = L if tier == "thorough" else rng.sample(L, 120)
+    must = [[], [SEMI], [COMMA], [ITEMS[10]], [ITEMS[0], SEMI], [ITEMS[18]], [ITEMS[19], SEMI]]
+    sample = L if tier == "thorough" else must + rng.sample(L, 120)
     for p in pend:
         for l in sample:
             for d1, d2 in (("scr", "scr"), ("scr", "lpt"), ("f1", "f1"), ("f1", "f2"), ("lpt", "scr"), ("lpt", "lpt")):
@@ -149,6 +154,11 @@ def gen_using(tier, rng):
     hs = []
     nums = [num_item(0), num_item(5), num_item(-7), num_item(42), num_item(123), num_item(1234, "I"), num_item(12345, "I"),
             num_item(1234567, "L"), num_item(-1234, "I"), num_item(3, "S"), num_item(99, "D")]
+    # values with a fraction, in hundredths (no ties at 0 or 1 decimals: the hundredths digit is never 5 and never 50)
+    def scaled(c, ty):
+        return dict(num_item(0, ty), c=c)
+    nums += [scaled(250 + 1, "D"), scaled(6190, "D"), scaled(-775 - 1, "D"), scaled(199, "D"), scaled(123456, "D"), scaled(-4027, "D"),
+             scaled(275 + 1, "S"), scaled(6190, "S"), scaled(-1224, "S"), scaled(112, "S")]
     strs = [str_item(S("a")), str_item(S("hello")), str_item(S("xy")), str_item([])]
     fmts = []
     for n in range(1, 6):
